@@ -1,6 +1,8 @@
 package main
 
 import (
+	"go/types"
+	"sort"
 	"strings"
 
 	"golang.org/x/tools/go/ssa"
@@ -27,6 +29,7 @@ func propMWU(a *Analysis, r *Registry, which string) {
 	b := NewB(a, r)
 	X := b.X
 	S := X.S
+	X.NoInline["stats.labeledMerge"] = true // its results are named by the call: merged, labels
 	fn := b.Fn("anchor", "stats.MannWhitneyUTest")
 	if fn == nil {
 		return
@@ -37,86 +40,111 @@ func propMWU(a *Analysis, r *Registry, which string) {
 	env.Let("n1", "len(x1)")
 	env.Let("n2", "len(x2)")
 
-	// shared anchors: U (the value stored to the result's U field) and its loop system
+	// shared anchors: U (the value stored to the result's U field) and its loop system.
+	// The rank pass may live in this function or in a helper it delegates to
+	// (whose loop-carried values are then bound to the actual arguments): rfc is
+	// the context the rank loop lives in.
 	var U, R1 *RF
+	var rfc *FC
+	var rph *ssa.Phi
 	vars := map[string]*RF{}
 	b.guard("anchor", name+"/rank-pass", func() {
 		U = fc0.LitField("MannWhitneyUTestResult", "U")
 		R1 = U.Add(env.MustParse("n1*(n1+1)/2"))
-		if at := R1.SingleAtom(); at == nil || !strings.HasPrefix(at.Name, "phi:") {
+		at := R1.SingleAtom()
+		if at != nil {
+			rph, rfc = X.phiOf[at.ID], X.phiFC[at.ID]
+		}
+		if rph == nil || rfc == nil {
+			msg := "U is not R1 - n1(n1+1)/2 for a loop-accumulated rank sum R1: U = " + clip(U.String(), 300)
 			if which == "C01" {
-				r.Fail("B-C01 rank-pass", name+"/U1", b.pos(fn), "U is not R1 - n1(n1+1)/2 for a loop-accumulated rank sum R1: U = "+clip(U.String(), 300))
+				r.Fail("B-C01 rank-pass", name+"/U1", b.pos(fn), msg)
+			} else {
+				r.Undecided("anchor", name+"/rank-pass", b.pos(fn), msg+" (decided under C01; the clauses of C03 built on it cannot be located)")
 			}
 			R1 = nil
-			return
 		}
 	})
-	if U == nil {
+	if U == nil || R1 == nil {
+		if U == nil && len(r.Obs) == 0 {
+			r.Undecided("anchor", name+"/rank-pass", b.pos(fn), "the U statistic of the result could not be located")
+		}
 		return
 	}
 	// the merged/labels slices
 	var merged, labels *RF
 	b.guard("anchor", name+"/merge", func() {
-		c := fc0.TheCallTo("stats.labeledMerge")
-		merged = S.MakeFn("stats.labeledMerge#0", fc0.Val(c.Call.Args[0]), fc0.Val(c.Call.Args[1]))
-		labels = S.MakeFn("stats.labeledMerge#1", fc0.Val(c.Call.Args[0]), fc0.Val(c.Call.Args[1]))
+		cfc := fc0
+		cs := fc0.CallsTo("stats.labeledMerge")
+		if len(cs) != 1 && rfc != fc0 {
+			cfc = rfc
+			cs = rfc.CallsTo("stats.labeledMerge")
+		}
+		if len(cs) != 1 {
+			anchorFail("expected exactly one call to stats.labeledMerge in MannWhitneyUTest or its rank-pass helper, found %d", len(cs))
+		}
+		c := cs[0]
+		merged = S.MakeFn("stats.labeledMerge#0", cfc.Val(c.Call.Args[0]), cfc.Val(c.Call.Args[1]))
+		labels = S.MakeFn("stats.labeledMerge#1", cfc.Val(c.Call.Args[0]), cfc.Val(c.Call.Args[1]))
 	})
 	if merged == nil {
 		return
 	}
 	env.Set("merged", merged, nil)
 	env.Set("labels", labels, nil)
-	if R1 != nil {
-		b.guard("B-C01 rank-pass", name+"/recurrences", func() {
-			got := b.LoopSystem("B-"+which+" rank-pass", name+"/recurrences", b.pos(fn), fc0, R1, env, []recSpec{
-				{"R1", "0", "ite(nx!=0, R1+(iI+iO+1)/2*nx, R1)"},
-				{"iO", "0", "iI"},
-				{"iI", "iO", "iI+1"},
-				{"nx", "0", "ite(labels[iI]==1, nx+1, nx)"},
-			})
-			for k, v := range got {
-				vars[k] = v
-				env.Set(k, v, nil)
-			}
+	b.guard("B-C01 rank-pass", name+"/recurrences", func() {
+		got := b.LoopSystem("B-"+which+" rank-pass", name+"/recurrences", b.pos(fn), fc0, R1, env, []recSpec{
+			{"R1", "0", "ite(nx!=0, R1+(iI+iO+1)/2*nx, R1)"},
+			{"iO", "0", "iI"},
+			{"iI", "iO", "iI+1"},
+			{"nx", "0", "ite(labels[iI]==1, nx+1, nx)"},
 		})
-	}
+		for k, v := range got {
+			vars[k] = v
+			env.Set(k, v, nil)
+		}
+	})
 	if len(vars) == 0 {
 		return
 	}
-	// T and hasTies: loop-carried through the same outer loop
+	// T and hasTies: the slice- and bool-typed values carried by the same outer loop
 	var T, hasTies *RF
 	b.guard("anchor", name+"/T", func() {
-		// T: the slice appended to in the outer loop
-		for _, c := range fc0.CallsTo("builtin:append") {
-			if at := fc0.Val(c.Call.Args[0]).SingleAtom(); at != nil && strings.HasPrefix(at.Name, "phi:") {
-				T = S.atomRF(at.ID)
-				vals := fc0.AppendedValues(c)
-				if true {
-					if len(vals) != 1 {
-						r.Fail("B-"+which+" rank-pass", name+"/tie-entry", a.W.InstrPos(c), "expected one value appended to the tie vector per rank")
-					} else {
-						b.Eq("B-"+which+" rank-pass", name+"/tie-entry", a.W.InstrPos(c), vals[0], env, "iI-(iO+1)+1")
-					}
+		for _, in := range rph.Block().Instrs {
+			p, ok := in.(*ssa.Phi)
+			if !ok {
+				break
+			}
+			switch t := p.Type().Underlying().(type) {
+			case *types.Slice:
+				T = rfc.Val(p)
+			case *types.Basic:
+				if t.Kind() == types.Bool {
+					hasTies = rfc.Val(p)
 				}
 			}
 		}
-		for _, ifi := range fc0.IfsMentioning("global:stats.MannWhitneyExactLimit") {
-			_ = ifi
-		}
-		// hasTies: the boolean loop-carried value tested right after the loop
-		fc0.Ctx.Instrs(func(in ssa.Instruction) {
-			if ifi, ok := in.(*ssa.If); ok && hasTies == nil {
-				c := fc0.Val(ifi.Cond)
-				if at := c.SingleAtom(); at != nil && strings.HasPrefix(at.Name, "phi:") && fc0.Ctx.LoopOf(ifi.Block()) == nil {
-					hasTies = c
-				}
-			}
-		})
 		if T == nil || hasTies == nil {
-			anchorFail("tie vector / hasTies not found")
+			anchorFail("tie vector / hasTies are not carried by the rank loop")
+		}
+		n := 0
+		for _, c := range rfc.CallsTo("builtin:append") {
+			if !rfc.Val(c.Call.Args[0]).Equal(T) {
+				continue
+			}
+			n++
+			vals := rfc.AppendedValues(c)
+			if len(vals) != 1 {
+				r.Fail("B-"+which+" rank-pass", name+"/tie-entry", a.W.InstrPos(c), "expected one value appended to the tie vector per rank")
+			} else {
+				b.Eq("B-"+which+" rank-pass", name+"/tie-entry", a.W.InstrPos(c), vals[0], env, "iI-(iO+1)+1")
+			}
+		}
+		if n != 1 {
+			r.Fail("B-"+which+" rank-pass", name+"/tie-entry", b.pos(fn), "expected exactly one append to the tie vector in the rank loop, found "+itoa(n))
 		}
 	})
-	if T == nil {
+	if T == nil || hasTies == nil {
 		return
 	}
 	env.Set("T", T, nil)
@@ -142,18 +170,16 @@ func propMWU(a *Analysis, r *Registry, which string) {
 	if which == "C01" {
 		const rB = "B-C01 formula"
 		b.guard("B-C01 rank-pass", name+"/tie-loop-condition", func() {
-			ph := X.phiOf[vars["iI"].SingleAtom().ID]
+			iat := vars["iI"].SingleAtom()
+			ph, pfc := X.phiOf[iat.ID], X.phiFC[iat.ID]
 			// inner loop: continues while i < len(merged) && merged[i] == v1 (v1 = merged[iO])
-			l := fc0.Ctx.LoopOf(ph.Block())
+			l := pfc.Ctx.LoopOf(ph.Block())
 			var body *ssa.BasicBlock
-			for _, in := range ph.Block().Instrs {
-				_ = in
-			}
 			for bi := range l.Body {
-				blk := fn.Blocks[bi]
+				blk := pfc.Fn.Blocks[bi]
 				for _, in := range blk.Instrs {
 					if st, ok := in.(*ssa.If); ok {
-						if c := fc0.Val(st.Cond); c.Equal(env.MustParse("labels[iI]==1")) {
+						if c := pfc.Val(st.Cond); c.Equal(env.MustParse("labels[iI]==1")) {
 							body = blk
 						}
 					}
@@ -162,7 +188,7 @@ func propMWU(a *Analysis, r *Registry, which string) {
 			if body == nil {
 				anchorFail("tie-group loop body not found")
 			}
-			b.Eq("B-C01 rank-pass", name+"/tie-loop-condition", b.pos(fn), fc0.ReachCondFrom(ph.Block(), body), env, "iI<len(merged) && merged[iI]==merged[iO]")
+			b.Eq("B-C01 rank-pass", name+"/tie-loop-condition", b.pos(fn), pfc.ReachCondFrom(ph.Block(), body), env, "iI<len(merged) && merged[iI]==merged[iO]")
 		})
 		b.guard(rB, name+"/U2", func() {
 			want := env.MustParse("fmin(U1, n1*n2-U1)")
@@ -240,7 +266,7 @@ func propMWU(a *Analysis, r *Registry, which string) {
 					} else {
 						// the recorded finding is this exact formula; anything else is a new violation
 						c2 := construct
-						if P.Equal(env.MustParse("ite(U1==n1*n2-U1, 1, 2*D.CDF(fmin(U1, n1*n2-U1)))")) {
+						if kf := env.MustParse("ite(U1==n1*n2-U1, 1, 2*D.CDF(fmin(U1, n1*n2-U1)))"); P.Equal(kf) || X.EquivByCases(P, kf, 0) {
 							c2 += "[code: U1==U2 ? 1 : 2*CDF(min(U1,U2))]"
 						}
 						r.Fail(rB, c2, b.pos(fn), "two-sided exact P is not min(1, 2*min(Pr[U'<=U], Pr[U'>=U])): code computes "+clip(P.String(), 400))
@@ -271,6 +297,7 @@ func propMWU(a *Analysis, r *Registry, which string) {
 					b.Eq(rB, "stats.labeledMerge/len", b.pos(lm), at.Args[0], menv, "len(x1)+len(x2)")
 				}
 				pairs := 0
+				seenLab := map[string]bool{}
 				fc.Ctx.Instrs(func(in ssa.Instruction) {
 					st, ok := in.(*ssa.Store)
 					if !ok {
@@ -297,6 +324,7 @@ func propMWU(a *Analysis, r *Registry, which string) {
 						return
 					}
 					found := false
+					seenLab[want] = true
 					for _, in2 := range st.Block().Instrs {
 						st2, ok := in2.(*ssa.Store)
 						if !ok {
@@ -320,7 +348,10 @@ func propMWU(a *Analysis, r *Registry, which string) {
 						r.Fail(rB, "stats.labeledMerge/copy", a.W.InstrPos(st), "no label written alongside the value")
 					}
 				})
-				r.Floor(rB, "labeledMerge value/label pairs", pairs, 4)
+				r.Floor(rB, "labeledMerge value/label pairs", pairs, 2)
+				if !seenLab["1"] || !seenLab["2"] {
+					r.Fail(rB, "stats.labeledMerge/copy", b.pos(lm), "merged is not filled from both x1 (label 1) and x2 (label 2)")
+				}
 			})
 		}
 		return
@@ -330,66 +361,56 @@ func propMWU(a *Analysis, r *Registry, which string) {
 	const rB = "B-C03 formula"
 	a.CheckNoMutation(r, "A-1 no-mutation", fn, nil)
 	b.ErrGuard("C-guard error-returns", fc0, env, "ErrSampleSize", "n1==0 || n2==0")
-	b.guard("C-guard error-returns", name+"/ErrSamplesEqual", func() {
-		wantExact, wantApprox := false, false
-		for _, rt := range fc0.Ctx.Returns() {
-			if !returnsGlobal(rt, 1, "ErrSamplesEqual") {
+	mu := "(n1*n2/2)"
+	sigma := "sqrt(n1*n2*((n1+n2+1)-tieCorrection(T)/((n1+n2)*(n1+n2-1)))/12)"
+	const sel = "(!hasTies && n1<=stats.MannWhitneyExactLimit && n2<=stats.MannWhitneyExactLimit) || (hasTies && n1<=stats.MannWhitneyTiesExactLimit && n2<=stats.MannWhitneyTiesExactLimit)"
+	// the error result as one gated value: which error, under which condition, in which order
+	b.guard("C-guard error-returns", name+"/error-result", func() {
+		E := fc0.RetVal(1)
+		b.Eq("C-guard error-returns", name+"/error-result", b.pos(fn), E, env,
+			"ite(n1==0 || n2==0, stats.ErrSampleSize, ite("+sel+", ite(len(T)==1, stats.ErrSamplesEqual, nil), ite("+sigma+"==0, stats.ErrSamplesEqual, nil)))")
+	})
+	// the sentinel errors are assigned nowhere (they are compared against nil above)
+	for _, g := range []string{"ErrSampleSize", "ErrSamplesEqual"} {
+		var writers []string
+		for _, f := range a.W.FuncList {
+			if f.Name() == "init" {
 				continue
 			}
-			for _, f := range fc0.Ctx.Facts(rt.Block()) {
-				if !f.Val {
-					continue
-				}
-				c := fc0.Val(f.Cond)
-				if c.Equal(env.MustParse("len(T)==1")) {
-					wantExact = true
-				}
-				if at := c.SingleAtom(); at != nil && at.Name == "cmp==" {
-					for _, s := range at.Args {
-						if sa := s.SingleAtom(); sa != nil && sa.Name == "math.Sqrt" {
-							wantApprox = true
+			for _, blk := range f.Blocks {
+				for _, in := range blk.Instrs {
+					if st, ok := in.(*ssa.Store); ok {
+						if gl, ok := st.Addr.(*ssa.Global); ok && gl.Name() == g && gl.Pkg == fn.Pkg {
+							writers = append(writers, a.W.FuncName(f))
 						}
 					}
 				}
 			}
 		}
-		if wantExact && wantApprox {
-			r.OK("C-guard error-returns", name+"/ErrSamplesEqual", b.pos(fn), "returned under len(T)==1 (exact) and under sigma==0 (approximate)")
+		if len(writers) == 0 {
+			r.OK("C-guard error-returns", "writes of "+g, "", "assigned only by the package initialiser")
 		} else {
-			r.Fail("C-guard error-returns", name+"/ErrSamplesEqual", b.pos(fn), "the all-equal guard is missing in the exact and/or the approximate branch")
+			r.Fail("C-guard error-returns", "writes of "+g, "", "reassigned by "+strings.Join(writers, ","))
 		}
-	})
-	// method selection
+	}
+	// method selection: the reach condition of the exact branch (where the UDist is
+	// built), over the loop-free region that leads to it, given non-empty samples
 	b.guard("C-decision method-selection", name, func() {
-		blk := fc0.blockOfLit("UDist")
-		// the exact branch begins where len(T)==1 is tested: find the first block after the rank loop
-		var start *ssa.BasicBlock
-		fc0.Ctx.Instrs(func(in ssa.Instruction) {
-			if ifi, ok := in.(*ssa.If); ok && start == nil && fc0.Ctx.LoopOf(ifi.Block()) == nil {
-				if c := fc0.Val(ifi.Cond); c.Equal(hasTies) || c.Equal(S.Not(hasTies)) {
-					start = ifi.Block()
-				}
-			}
-		})
-		if start == nil {
-			anchorFail("method selection: no test of hasTies after the rank loop")
+		fcm := X.Under(fn, X.AssumeCond(env.MustParse("n1==0"), false), X.AssumeCond(env.MustParse("n2==0"), false))
+		blk := fcm.blockOfLit("UDist")
+		start := fcm.Ctx.LoopFreeRegionStart(blk)
+		got := fcm.Sub(fcm.ReachCondFrom(start, blk))
+		w1, w2 := env.MustParse(sel), env.MustParse("("+sel+") && len(T)!=1")
+		if got.Equal(w1) || got.Equal(w2) || X.EquivByCases(got, w1, 0) || X.EquivByCases(got, w2, 0) {
+			r.OK("C-decision method-selection", name, b.pos(fn), "exact branch taken ≡ "+sel+" (and the tie vector has more than one entry)")
+		} else {
+			r.Fail("C-decision method-selection", name, b.pos(fn), "exact branch is taken under "+clip(got.String(), 500)+" ; stated: "+sel)
 		}
-		// exact region entry = the block testing len(T)==1
-		var entry *ssa.BasicBlock
-		fc0.Ctx.Instrs(func(in ssa.Instruction) {
-			if ifi, ok := in.(*ssa.If); ok && fc0.Val(ifi.Cond).Equal(env.MustParse("len(T)==1")) {
-				entry = ifi.Block()
-			}
-		})
-		if entry == nil {
-			entry = blk
-		}
-		b.Eq("C-decision method-selection", name, b.pos(fn), fc0.ReachCondFrom(start, entry), env,
-			"(!hasTies && n1<=stats.MannWhitneyExactLimit && n2<=stats.MannWhitneyExactLimit) || (hasTies && n1<=stats.MannWhitneyTiesExactLimit && n2<=stats.MannWhitneyTiesExactLimit)")
 	})
 	// the two limits are read only here
 	for _, g := range []string{"MannWhitneyExactLimit", "MannWhitneyTiesExactLimit"} {
 		readers := map[string]bool{}
+		accepted := map[string]bool{}
 		for _, f := range a.W.FuncList {
 			for _, blk := range f.Blocks {
 				for _, in := range blk.Instrs {
@@ -402,19 +423,43 @@ func propMWU(a *Analysis, r *Registry, which string) {
 			}
 		}
 		delete(readers, name)
+		// a helper all of whose callers are MannWhitneyUTest (or such helpers) is part of it
+		for changed := true; changed; {
+			changed = false
+			for rn := range readers {
+				f := a.W.Fn(rn)
+				if f == nil {
+					continue
+				}
+				node := a.W.CG.Nodes[f]
+				okAll := node != nil && len(node.In) > 0
+				if node != nil {
+					for _, e := range node.In {
+						cn := a.W.FuncName(e.Caller.Func)
+						if cn != name && !accepted[cn] {
+							okAll = false
+						}
+					}
+				}
+				if okAll {
+					accepted[rn] = true
+					delete(readers, rn)
+					changed = true
+				}
+			}
+		}
 		if len(readers) == 0 {
-			r.OK("C-decision method-selection", "reads of "+g, "", "read only by MannWhitneyUTest")
+			r.OK("C-decision method-selection", "reads of "+g, "", "read only by MannWhitneyUTest (and helpers called only from it)")
 		} else {
 			var rs []string
 			for k := range readers {
 				rs = append(rs, k)
 			}
+			sort.Strings(rs)
 			r.Fail("C-decision method-selection", "reads of "+g, "", "also read by "+strings.Join(rs, ","))
 		}
 	}
 	// normal approximation
-	mu := "(n1*n2/2)"
-	sigma := "sqrt(n1*n2*((n1+n2+1)-tieCorrection(T)/((n1+n2)*(n1+n2-1)))/12)"
 	specs := map[string]string{
 		"LocationLess":    "stats.StdNormal.CDF((U1-" + mu + "+0.5)/" + sigma + ")",
 		"LocationGreater": "1-stats.StdNormal.CDF((U1-" + mu + "-0.5)/" + sigma + ")",
